@@ -100,6 +100,22 @@ func (c *recChannel) OpenConnection() (net.Conn, error) {
 	return c.NetworkChannel.OpenConnection()
 }
 
+// recSocksChannel is the real built-in SOCKS5 channel (names starting with "socks" are configured as such); a request
+// for it is followed by a real SOCKS CONNECT to the recording target of its position in the table.
+type recSocksChannel struct {
+	*server.SocksChannel
+	target int
+	mu     *sync.Mutex
+	dials  *[]int
+}
+
+func (c *recSocksChannel) OpenConnection() (net.Conn, error) {
+	c.mu.Lock()
+	*c.dials = append(*c.dials, c.target)
+	c.mu.Unlock()
+	return c.SocksChannel.OpenConnection()
+}
+
 // ---------------------------------------------------------------- op
 
 type exposeEndpoint struct {
@@ -242,7 +258,11 @@ func startExposeServer(sv exposeServer, all server.Channels) (st exposeStarted) 
 
 // exposeRequest asks for channel name req through a fresh client stack; outcome "connect:<banner>" (the
 // application saw the greeting of that target), "refused" (session up, selection failed) or "unreachable".
-func exposeRequest(u upstream.Upstream, req string) string {
+func exposeRequest(u upstream.Upstream, req string) string { return exposeRequestVia(u, req, "") }
+
+// exposeRequestVia: socksTarget != "" = the requested name is configured as a SOCKS channel; after the selection the
+// application speaks SOCKS5 and asks for that address.
+func exposeRequestVia(u upstream.Upstream, req string, socksTarget string) string {
 	ups := &upstream.Upstreams{Data: []upstream.Upstream{u}}
 	type result struct{ s string }
 	done := make(chan result, 1)
@@ -262,7 +282,28 @@ func exposeRequest(u upstream.Upstream, req string) string {
 			}
 			return
 		}
-		line, err := bufio.NewReader(stream).ReadString('\n')
+		br := bufio.NewReader(stream)
+		if socksTarget != "" {
+			_, _ = stream.Write([]byte{5, 1, 0})
+			if first, err := br.Peek(1); err == nil && first[0] == 5 {
+				g := make([]byte, 2)
+				_, _ = io.ReadFull(br, g)
+				host, portS, _ := net.SplitHostPort(socksTarget)
+				var port int
+				_, _ = fmt.Sscanf(portS, "%d", &port)
+				rq := append([]byte{5, 1, 0, 1}, net.ParseIP(host).To4()...)
+				rq = append(rq, byte(port>>8), byte(port))
+				_, _ = stream.Write(rq)
+				rep := make([]byte, 10)
+				if _, err := io.ReadFull(br, rep); err != nil || rep[1] != 0 {
+					_ = stream.Close()
+					done <- result{"accepted-no-target"}
+					return
+				}
+			}
+			// anything else (a greeting line of a network target) is read below: the request was routed elsewhere
+		}
+		line, err := br.ReadString('\n')
 		_ = stream.Close()
 		if err != nil || !strings.HasPrefix(line, "T") {
 			done <- result{"accepted-no-target"}
@@ -309,7 +350,17 @@ func (c *exposeComp) Exec(op string) (res, mon, class string, nontrivial bool) {
 	var mu sync.Mutex
 	var dials []int
 	all := make(server.Channels, len(names))
+	socksTargets := map[string]string{}
 	for i, n := range names {
+		if strings.HasPrefix(n, "socks") {
+			if _, dup := socksTargets[n]; !dup {
+				socksTargets[n] = bannerTargetAddr(i)
+			}
+			all[i] = &recSocksChannel{SocksChannel: &server.SocksChannel{AbstractChannel: server.AbstractChannel{
+				ProtoName: addr.ProtoName{Name: n}, Address: addr.MustParseAddress("socks://localhost")}},
+				target: i, mu: &mu, dials: &dials}
+			continue
+		}
 		all[i] = &recChannel{NetworkChannel: &server.NetworkChannel{AbstractChannel: server.AbstractChannel{
 			ProtoName: addr.ProtoName{Name: n}, Address: addr.MustParseAddress("tcp://" + bannerTargetAddr(i))}},
 			target: i, mu: &mu, dials: &dials}
@@ -322,7 +373,7 @@ func (c *exposeComp) Exec(op string) (res, mon, class string, nontrivial bool) {
 	}
 	outcome := "unreachable"
 	if viaIdx >= 0 && viaIdx < len(started) && started[viaIdx].client != nil {
-		outcome = exposeRequest(started[viaIdx].client(viaPath), req)
+		outcome = exposeRequestVia(started[viaIdx].client(viaPath), req, socksTargets[req])
 	}
 	for _, st := range started {
 		if st.stop != nil {
@@ -479,6 +530,18 @@ func (c *exposeComp) Gen(r *Rand, tier string, emit func(op string)) {
 	// 1. one HTTP server, two websocket paths: every ordered pair of allow-lists (restricted before "all", "all"
 	//    before restricted, disjoint, overlapping, equal, one unknown name), request on each path and on a path
 	//    nobody registered
+	// the built-in SOCKS channel is a channel like any other for the allow-lists (and the one that reaches everything)
+	for _, a := range []string{"-", "ssh", "socks", "ssh,socks", "web"} {
+		for _, sv := range []string{"socket=" + a, "http=ws/a:" + a + "|ws/b:-", "packet=" + a} {
+			via := "0"
+			if strings.HasPrefix(sv, "http") {
+				via = "0:ws/a"
+			}
+			for _, q := range []string{"ssh", "socks", "web", "SOCKS", "sock"} {
+				emit("ssh,socks,web " + sv + " " + via + " " + q)
+			}
+		}
+	}
 	tables := [][]string{{"ssh", "web"}, {"ssh", "web", "ssh"}, {"web", "~", "ssh", "SSH"}, {"s", "ss", "ssh", "sshd"}}
 	lists := []string{"-", "ssh", "web", "ssh,web", "web,ssh", "SSH", "~", "ss", "nope", "ssh,nope"}
 	for ti, tb := range tables {
